@@ -2,6 +2,7 @@ import CashewsVerif.Driver.Proto
 import CashewsVerif.Model.Mem
 import CashewsVerif.Model.Lru
 import CashewsVerif.Spec.TtlMap
+import CashewsVerif.Model.Fine
 /- Driver for C01 / C11: runs the same command line on the `Mem` model and the `TtlMap` spec.
 For C11 it also runs the ghost-instrumented `Lru` model (same store, plus use log / eviction records /
 `gone` list) and answers the extra request words `keys`, `uselog`, `victims`, `gone`, `push`, `pop`. -/
@@ -11,6 +12,7 @@ structure St where
   mem : Mem
   spec : TtlMap
   lru : Lru := Lru.init 1000
+  res : Nat := 8                            -- ticks per second (`case <cap> <res>`): only `getexpire` looks at it
   stack : List (Mem × TtlMap × Lru) := []   -- `push` / `pop`: depth-first enumeration of histories (C11)
 
 def parseKv? (s : String) : Option (Nat × Val) :=
@@ -36,6 +38,23 @@ def parseOp? : List String → Option Op
   | ["purge"] => some .purge
   | _ => none
 
+/-- C11, larger alphabet (Model/Lru.lean `XOp`): commands of `Memory` beyond the regular ones.  They run on the
+ghost-instrumented model only (`mem` is kept equal to its store); the `TtlMap` spec does not know them. -/
+def parseXOp? : List String → Option XOp
+  | ["setlock", k, v, ttl] => do pure (.setLock (← k.toNat?) (← parseVal? v) (← parseTtl? ttl))
+  | ["islocked", k] => do pure (.isLocked (← k.toNat?))
+  | ["unlock", k, v] => do pure (.unlock (← k.toNat?) (← parseVal? v))
+  | ["setadd", k, ttl] => do pure (.setAdd (← k.toNat?) (← parseTtl? ttl))
+  | ["setremove", k] => do pure (.setRemove (← k.toNat?))
+  | ["setpop", k] => do pure (.setPop (← k.toNat?))
+  | ["sliceincr", k, ttl] => do pure (.sliceIncr (← k.toNat?) (← parseTtl? ttl))
+  | ["incrbits", k] => do pure (.incrBits (← k.toNat?))
+  | ["getbits", k] => do pure (.getBits (← k.toNat?))
+  | ["getraw", k] => do pure (.getRaw (← k.toNat?))
+  | ["getmatch"] => some .getMatch
+  | ["delmatch"] => some .delMatch
+  | _ => none
+
 def showKeys (ks : List Nat) : String := ",".intercalate (ks.map toString)
 
 def step (st : St) (line : String) : St × String :=
@@ -44,6 +63,12 @@ def step (st : St) (line : String) : St × String :=
     match cap.toNat? with
     | some c => ({ mem := Mem.init c, spec := TtlMap.init, lru := Lru.init c }, "ok")
     | none => (st, "bad-op")
+  -- a history on a finer clock: `res` ticks per second (Model/Fine.lean; `res = 8` is the plain `case <cap>`)
+  | ["case", cap, res] =>
+    match cap.toNat?, res.toNat? with
+    | some c, some r =>
+      if r = 0 then (st, "bad-op") else ({ mem := Mem.init c, spec := TtlMap.init, lru := Lru.init c, res := r }, "ok")
+    | _, _ => (st, "bad-op")
   | ["keys"] => (st, "keys=" ++ showKeys st.mem.store.keys)   -- store order, for C11 probes
   -- C11 ghost observables: use log (most recent first), victims of all evictions so far (latest first),
   -- keys that left for an accepted reason since their last use
@@ -57,11 +82,20 @@ def step (st : St) (line : String) : St × String :=
     | [] => (st, "bad-op")
   | ws =>
     match parseOp? ws with
-    | none => (st, "bad-op")
+    | none =>
+      match parseXOp? ws with
+      | none => (st, "bad-op")
+      | some xop =>
+        let (l', o) := st.lru.xstep xop
+        ({ st with mem := l'.mem, lru := l' }, s!"model={showOut o} spec=-")
     | some op =>
       let (m', o) := st.mem.step op
       let (t', o') := st.spec.step op
       let (l', _) := st.lru.step op
+      -- the TTL query answers whole seconds: at the case's resolution (`getExpireR 8 = getExpire`, Lemmas/Fine.lean)
+      let (o, o') := match op with
+        | .getExpire k => (Out.int (st.mem.getExpireR st.res k), Out.int (st.spec.getExpireR st.res k))
+        | _ => (o, o')
       ({ st with mem := m', spec := t', lru := l' }, s!"model={showOut o} spec={showOut o'}")
 
 def main : IO Unit := mainLoop step { mem := Mem.init 1000, spec := TtlMap.init }
